@@ -214,6 +214,20 @@ def apply_mods(term, neg, scale, fmt=None):
     return t
 
 
+def with_explicit_zero(M):
+    """The same matrix with one explicitly stored zero (what block assembly
+    through COO, `M[i, j] = 0.0` or a scaled single-term matrix leave behind):
+    mathematically identical, but a callee that "normalises" its argument in
+    place changes the caller's arrays."""
+    coo = sp.coo_array(M)
+    n = M.shape[0]
+    data = np.r_[coo.data.astype(float), 0.0]
+    row = np.r_[coo.row, 0]
+    col = np.r_[coo.col, n - 1]
+    out = sp.csr_array((data, (row, col)), shape=M.shape)
+    return out
+
+
 def assemble(Mbc, RHSbc, items):
     """Independent sum of a term list: items = [(term, neg, scale)]."""
     M = sp.csr_array(Mbc, copy=True).astype(float)
